@@ -551,7 +551,7 @@ func (in *Interp) visitInstr(fr *frame, instr ssa.Instruction) continuation {
 			}
 			fr.symIter[instr]++
 			if lim := in.param("unwind", 64); fr.symIter[instr] > lim {
-				panic(pathEnd{"unwind", fmt.Sprintf("symbolic branch at %s taken more than %d times", in.prog.Fset.Position(instr.Pos()), lim)})
+				panic(pathEnd{"unwind", fmt.Sprintf("symbolic branch in %s at %s taken more than %d times", fr.fn, in.prog.Fset.Position(instr.Pos()), lim)})
 			}
 			if in.branch(c) {
 				succ = 0
